@@ -8,7 +8,9 @@ Import ListNotations.
 
 (* FIFO with every field preserved, for ALL histories: for every initial size that holds at least one
    record (the page size in production), every size limit and every sequence of Add (both IP versions,
-   all byte / uint32 / int8 field values), Next and Reset calls, the buffer never panics and the
+   all byte / uint32 / int8 field values), Next, Reset and Recycle calls (Recycle = end of a buffering
+   cycle and start of the next on the same pool element: Reset, Put, Get(initial size), Assign - the
+   element keeps its capacity and its stale bytes), the buffer never panics and the
    observable results satisfy the queue specification spec_ok: every Next returns the oldest item not
    yet returned, with identical key, IP version, packet type, aux byte, errno and size (None exactly
    when the queue is empty); an Add is refused only when the record no longer fits below the size limit
@@ -29,7 +31,7 @@ Theorem c23_fifo_fill_drain : forall (init : nat) (lim : N) (its : list item) (b
 Proof. exact fifo_fill_drain. Qed.
 Print Assumptions c23_fifo_fill_drain.
 
-(* Refusal: in every state reachable by any history, a refused Add leaves the buffer (bytes, positions,
+(* Refusal: in every state reachable by any (multi-cycle) history, a refused Add leaves the buffer (bytes, positions,
    limit) exactly as it was, and it is refused only because the size limit is reached: the bytes
    already written plus this record do not stay below the limit. *)
 Theorem c23_refusal : forall (init : nat) (lim : N) (ops : list op) (tr : list obs) (b : lbuf) (it : item) (b' : lbuf),
@@ -47,13 +49,14 @@ Definition ex6 : item :=
   mk_item (repeat 200%N 37) 255%N 4294967295%N false 128%N (-128)%Z.
 
 (* an IPv4 item followed by an IPv6 item (the pair the unfixed layout corrupted), a refused insert
-   (limit 70 leaves less than one record after growing 64 -> 70), drains, a reset *)
+   (limit 70 leaves less than one record after growing 64 -> 70), drains, then a second buffering cycle
+   on the same pool element (length back to 64, capacity still 70) that grows again to the limit *)
 Example c23_fifo_example :
-  let ops := [OAdd ex4; OAdd ex6; OAdd ex4; ONext; ONext; ONext; OReset; OAdd ex6; ONext] in
+  let ops := [OAdd ex4; OAdd ex6; OAdd ex4; ONext; ONext; ONext; ORecycle; OAdd ex6; OAdd ex4; ONext] in
   Forall (fun o => wf_op o = true) ops /\ rec_max <= 64 /\
   fst (run (buf_new 64 70%N) ops)
-  = [RAdd true; RAdd true; RAdd false; RNext (Some ex4); RNext (Some ex6); RNext None; RReset;
-     RAdd true; RNext (Some ex6)].
+  = [RAdd true; RAdd true; RAdd false; RNext (Some ex4); RNext (Some ex6); RNext None; RRecycle;
+     RAdd true; RAdd true; RNext (Some ex6)].
 Proof. split; [repeat constructor | split; [unfold rec_max; repeat constructor | vm_compute; reflexivity]]. Qed.
 
 Example c23_fifo_fill_drain_example :
